@@ -32,21 +32,21 @@ theorem mlp_backprop (H : Heap ℝ) (w1 b1 w2 b2 x N D O P : Nat) (hR : Reach .s
     (dw1 : (H.val w1).dims = [O]) (db1 : (H.val b1).dims = [O]) (dw2 : (H.val w2).dims = [P]) (db2 : (H.val b2).dims = [P])
     (dx : (H.val x).dims = [N, D])
     (hsole : ∀ v, ∀ e ∈ (H.ctx v).edges, e.target ≠ w1 ∧ e.target ≠ b1 ∧ e.target ≠ w2 ∧ e.target ≠ b2) :
-    ∃ y1 H1 a H2 y2 H3, fcForward ⟨some w1, some b1⟩ [some x] H = .ok (y1, H1) ∧
-      actForward Activation.sigmoid [some y1] H1 = .ok (a, H2) ∧
-      fcForward ⟨some w2, some b2⟩ [some a] H2 = .ok (y2, H3) ∧
-      (∀ n o, n < N → o < O → (H2.val a).el [n, o] = sig ((H1.val y1).el [n, o])) ∧
-      ((backprop .sum H3 y2).status = .ok () →
+    ∃ H1 H2 H3, fcForward ⟨some w1, some b1⟩ [some x] H = .ok (H.size + 8, H1) ∧
+      actForward Activation.sigmoid [some (H.size + 8)] H1 = .ok (H.size + 9 + 6, H2) ∧
+      fcForward ⟨some w2, some b2⟩ [some (H.size + 9 + 6)] H2 = .ok (H.size + 16 + 8, H3) ∧
+      (∀ n o, n < N → o < O → (H2.val (H.size + 9 + 6)).el [n, o] = sig ((H1.val (H.size + 8)).el [n, o])) ∧
+      ((backprop .sum H3 (H.size + 16 + 8)).status = .ok () →
         ∃ dW1 dB1 dW2 dB2,
-          (backprop .sum H3 y2).heap.grad w1 = some dW1 ∧ (backprop .sum H3 y2).heap.grad b1 = some dB1 ∧
-          (backprop .sum H3 y2).heap.grad w2 = some dW2 ∧ (backprop .sum H3 y2).heap.grad b2 = some dB2 ∧
-          dW1.dims = [O] ∧ dB1.dims = [O] ∧ dW2.dims = [P] ∧ dB2.dims = [P] ∧
+          (backprop .sum H3 (H.size + 16 + 8)).heap.grad w1 = some dW1 ∧ (backprop .sum H3 (H.size + 16 + 8)).heap.grad b1 = some dB1 ∧
+          (backprop .sum H3 (H.size + 16 + 8)).heap.grad w2 = some dW2 ∧ (backprop .sum H3 (H.size + 16 + 8)).heap.grad b2 = some dB2 ∧
+          dW1.WF ∧ dB1.WF ∧ dW2.WF ∧ dB2.WF ∧ dW1.dims = [O] ∧ dB1.dims = [O] ∧ dW2.dims = [P] ∧ dB2.dims = [P] ∧
           (∀ o, o < O → dW1.el [o] = ∑ n ∈ Finset.range N,
-              ((∑ p ∈ Finset.range P, (H.val w2).el [p]) * (sig ((H1.val y1).el [n, o]) * (1 - sig ((H1.val y1).el [n, o]))))
+              ((∑ p ∈ Finset.range P, (H.val w2).el [p]) * (sig ((H1.val (H.size + 8)).el [n, o]) * (1 - sig ((H1.val (H.size + 8)).el [n, o]))))
                 * ∑ d ∈ Finset.range D, (H.val x).el [n, d]) ∧
           (∀ o, o < O → dB1.el [o] = ∑ n ∈ Finset.range N,
-              (∑ p ∈ Finset.range P, (H.val w2).el [p]) * (sig ((H1.val y1).el [n, o]) * (1 - sig ((H1.val y1).el [n, o])))) ∧
-          (∀ p, p < P → dW2.el [p] = ∑ n ∈ Finset.range N, ∑ o ∈ Finset.range O, (H2.val a).el [n, o]) ∧
+              (∑ p ∈ Finset.range P, (H.val w2).el [p]) * (sig ((H1.val (H.size + 8)).el [n, o]) * (1 - sig ((H1.val (H.size + 8)).el [n, o])))) ∧
+          (∀ p, p < P → dW2.el [p] = ∑ n ∈ Finset.range N, ∑ o ∈ Finset.range O, (H2.val (H.size + 9 + 6)).el [n, o]) ∧
           (∀ p, p < P → dB2.el [p] = (N : ℝ))) := by
   have hw1 := lw1.1; have hb1 := lb1.1; have hw2 := lw2.1; have hb2 := lb2.1
   -- stage 1: the first layer
@@ -80,7 +80,7 @@ theorem mlp_backprop (H : Heap ℝ) (w1 b1 w2 b2 x N D O P : Nat) (hR : Reach .s
   have R3 : Reach .sum H3 := reach_fcForward R2 hw2' hb2' (by omega) r3
   have k3 : H2.size = H.size + 16 := by omega
   rw [k3] at r3 s3 g3
-  refine ⟨H.size + 8, H1, H.size + 9 + 6, H2, H.size + 16 + 8, H3, r1, r2, r3, ?_, ?_⟩
+  refine ⟨H1, H2, H3, r1, r2, r3, ?_, ?_⟩
   · intro n o hn ho
     rw [va]
     exact C14y.map_el sig _ g1.y.wf (by rw [g1.y.dims]; exact valid2 hn ho)
@@ -178,7 +178,7 @@ theorem mlp_backprop (H : Heap ℝ) (w1 b1 w2 b2 x N D O P : Nat) (hR : Reach .s
   have hxw2 : x ≠ w2 := by intro h; rw [h, dw2] at dx; simp at dx
   have hxb2 : x ≠ b2 := by intro h; rw [h, db2] at dx; simp at dx
   -- (D) the second layer's parameters
-  obtain ⟨dW2, dB2, q1, q2, _, q4, _, q6, q7, q8⟩ := fc_in_walk_sum H3 (H.size + 16 + 8) w2 b2 (H.size + 9 + 6) (H.size + 16) N O P hdag
+  obtain ⟨dW2, dB2, q1, q2, q3, q4, q5, q6, q7, q8⟩ := fc_in_walk_sum H3 (H.size + 16 + 8) w2 b2 (H.size + 9 + 6) (H.size + 16) N O P hdag
     ly3.2.1 hok g3 (by omega) (by omega) (by omega) h34 tw2 tb2 cw2 cb2 ca3 gw2 gb2 (fun i hi => gnew _ (by omega))
     (by omega) (by omega) (by intro i hi; omega)
     (by
@@ -234,7 +234,7 @@ theorem mlp_backprop (H : Heap ℝ) (w1 b1 w2 b2 x N D O P : Nat) (hR : Reach .s
     unfold gz
     rw [Qeep.C15y.zip_el _ dA (H3.val (H.size + 8)) wA wY hdd (by rw [dAd]; exact valid2 hn ho), vy1]
   -- (C) the first layer's parameters
-  obtain ⟨dW1, dB1, p1, p2, _, p4, _, p6, p7, p8⟩ := fc_in_walk_sum H3 (H.size + 16 + 8) w1 b1 x H.size N D O hdag
+  obtain ⟨dW1, dB1, p1, p2, p3, p4, p5, p6, p7, p8⟩ := fc_in_walk_sum H3 (H.size + 16 + 8) w1 b1 x H.size N D O hdag
     ly3.2.1 hok G1 hw1 hb1 hx h12 tw1 tb1 cw1 cb1 cx3 gw1 gb1 (fun i hi => gnew _ (by omega))
     (by omega) (by omega) (by intro i hi; omega)
     (by
@@ -247,7 +247,7 @@ theorem mlp_backprop (H : Heap ℝ) (w1 b1 w2 b2 x N D O P : Nat) (hR : Reach .s
       · interval_cases i <;> simp [fcEdges, sgEdges] at hm <;> (try rcases hm with rfl | rfl) <;> (try subst hm) <;> simp <;> omega
       · interval_cases i <;> simp [fcEdges, sgEdges] at hm <;> (try rcases hm with rfl | rfl) <;> (try subst hm) <;> simp <;> omega)
     _ _ GY mY pY
-  refine ⟨dW1, dB1, dW2, dB2, p1, p2, q1, q2, p4, p6, q4, q6, ?_, ?_, ?_, ?_⟩
+  refine ⟨dW1, dB1, dW2, dB2, p1, p2, q1, q2, p3, p5, q3, q5, p4, p6, q4, q6, ?_, ?_, ?_, ?_⟩
   · intro o ho
     rw [p7 o ho]
     apply Finset.sum_congr rfl
